@@ -468,5 +468,11 @@ PROPS["C18"]["explanation"] = PROPS["C18"]["explanation"].replace(" Not decided 
 PROPS["C01"]["rules"] = PROPS["C01"]["rules"] + [rules_limits.rule_transfer_bound_has_position]
 PROPS["C01"]["explanation"] += " (POSNTERM) every comparison of a transfer length with the element's length in Hread/Hwrite includes the handle's position. (NEGLEN) caller-supplied lengths are compared with 0 before they reach a descriptor."
 
+PROPS["C05"]["rules"] = PROPS["C05"]["rules"] + [rules_ref.rule_preread_then_seek]
+PROPS["C05"]["explanation"] += " (PREREADSEEK) a bit-I/O routine that fills the buffer by reading and leaves the bit file in write mode seeks the access element back afterwards."
+
+PROPS["C06"]["rules"] = PROPS["C06"]["rules"] + [rules_conv.rule_flavour_mask_operand]
+PROPS["C06"]["explanation"] = PROPS["C06"]["explanation"].replace(" Not decided: that other callers", " (NTMASK) the flavour flags DFNT_LITEND/DFNT_NATIVE are never applied to a value of type nc_type. Not decided: that other callers")
+
 NOT_APPLICABLE = {}
 
